@@ -16,6 +16,7 @@ mod prng;
 mod props_chain;
 mod props_sched;
 mod sched;
+mod storesim;
 mod swarm;
 
 use driver::{Tier, harness_error};
